@@ -124,6 +124,14 @@ def run(rep, info, model, tier, seed):
     rep.assumptions += ["aliasing of the receive buffer is outside the model (values are immutable there); it is decided on the implementation side only"]
     n = 1500 if tier == "quick" else 15000
     scs = [make_scenario(rnd) for _ in range(n)]
+    # the same guarantee on connections that negotiated permessage-deflate (message histories of C06, judged as deliveries)
+    from . import c06
+    zscs = []
+    for _ in range(n // 12):
+        z = c06.gen(rnd, rnd.choice([8, 10, 15]), rnd.choice([9, 15]), rnd.random() < 0.3, rnd.random() < 0.3)
+        z["_shape"] = None
+        zscs.append(z)
+    rep.count("compressed_connections", len(zscs))
     for sc in scs:
         sh = sc["_shape"]
         rep.count("nmsg", sh["nmsg"])
@@ -135,6 +143,8 @@ def run(rep, info, model, tier, seed):
         rep.count("empty_nonfinal_fragments", min(sh["empty_frag"], 2))
     fam.run_family(rep, model, "C01:conforming-streams", scs, oracle, project=fam.no_waits,
                    rule="random conforming server streams: 1-8 messages (+optional Close), boundary-biased sizes incl. 0/125/126/65535/65536, 1-5 fragments incl. empty ones, control frames between fragments, minimal and non-minimal length forms, random segmentation; expected events computed from the message list by the harness")
+    fam.run_family(rep, model, "C01:conforming-streams+deflate", zscs, oracle, project=lambda t: [it for it in t if it[0] != 10],
+                   rule="connections with permessage-deflate negotiated: 1-12 server messages compressed by an independent RFC 7692 peer (or not), fragmented anywhere, pings between fragments; the delivered message events must be the messages sent")
     if tier == "thorough":
         ex = exhaustive_small()
         fam.run_family(rep, model, "C01:exhaustive<=3frames", ex, oracle, project=fam.no_waits,
